@@ -830,7 +830,7 @@ class Constant(Expression):
             self.value = index(value)
             self.fixed = False
         except TypeError:
-            self.value = float(value) * Expression.FIXED_BASE
+            self.value = round(float(value) * Expression.FIXED_BASE)
             self.fixed = True
         self.ebpf = ebpf
         self.signed = value < 0
